@@ -94,6 +94,7 @@ int main(int argc, char **argv)
 	vrt_add_class("do_next", VRT_CLASS_ANY + 1);
 	vrt_add_class("dgq_pending", 3);
 	vrt_set_hang_seconds(20);
+	vrt_set_record_progress(0);   /* the pool monitor / background stream touch registered words on their own */
 	vrt_set_post_steer(post_steer);
 	vrt_set_projector(proj);
 	(void)vrt_tid();
